@@ -98,7 +98,7 @@ if "--only" not in args:
             violations.append("VIOLATION property=%s replay=%s" % (prop, rp))
 for v in violations:
     print(v)
-if violations and rc in (0, 2):
+if violations:  # a concrete failing run found by a bounded post-check is a violation whatever the prover variants said (undecided, out of reach)
     rc = 1
 # ---- evidence (several variants: coverage merged, every variant named)
 if "--no-evidence" not in args and all(os.path.exists(f) for _, f in evs):
